@@ -122,7 +122,7 @@ static int spec_src(int form, int reg, int val, int bw, unsigned a_ext, int *sre
     case F_REG: return 0;
     case F_IND: return 2;
     case F_INDINC: return 3;
-    case F_ABS: *sreg = 2; *has_ext = 1; *ext = (unsigned)val & 0xffff; if (val < -32768 || val > 65535) *ok = 0; return 1;
+    case F_ABS: *sreg = 2; *has_ext = 1; *ext = (unsigned)val & 0xffff; if (val < 0 || val > 65535) *ok = 0; return 1;   /* absolute addresses are unsigned 16-bit */
     case F_IDX: *has_ext = 1; *ext = (unsigned)val & 0xffff; if (val < -32768 || val > 65535) *ok = 0; return 1;
     case F_SYM: *sreg = 0; *has_ext = 1; *ext = ((unsigned)val - a_ext) & 0xffff; if (val < 0 || val > 65535) *ok = 0; return 1;
     case F_IMM:
@@ -148,7 +148,7 @@ static Enc spec_two(unsigned op, int bw, int rs, int sv, int rd, int dv, unsigne
   int As = spec_src(SRCFORM, rs, sv, bw, a0 + 2, &sreg, &sh, &sx, &e.ok);
   int dreg = rd, dh = 0, Ad = 0; unsigned dx = 0;
   unsigned a_dext = a0 + 2 + (sh ? 2 : 0);
-  if (DSTFORM == F_ABS) { dreg = 2; Ad = 1; dh = 1; dx = (unsigned)dv & 0xffff; if (dv < -32768 || dv > 65535) e.ok = 0; }
+  if (DSTFORM == F_ABS) { dreg = 2; Ad = 1; dh = 1; dx = (unsigned)dv & 0xffff; if (dv < 0 || dv > 65535) e.ok = 0; }
   else if (DSTFORM == F_IDX) { Ad = 1; dh = 1; dx = (unsigned)dv & 0xffff; if (dv < -32768 || dv > 65535) e.ok = 0; }
   else if (DSTFORM == F_SYM) { dreg = 0; Ad = 1; dh = 1; dx = ((unsigned)dv - a_dext) & 0xffff; if (dv < 0 || dv > 65535) e.ok = 0; }
   e.w[0] = op | ((unsigned)sreg << 8) | ((unsigned)Ad << 7) | ((unsigned)bw << 6) | ((unsigned)As << 4) | (unsigned)dreg;
